@@ -250,7 +250,7 @@ class Runner:
                     lid = '%s.%s' % (m.group(1), m.group(2))
                     cur = extra_us.get(lid) or next((int(x.split(':')[1]) for x in ob.unwindset if x.startswith(lid + ':')), None) or \
                         (ob.mem_unwind if lid in RT_LOOPS else ob.unwind)
-                    extra_us[lid] = min(cur * 4, 1100)
+                    extra_us[lid] = min(cur * 4, 4200)
             r = self.run_cbmc(ob, extra_defines, unwindset_override=extra_us)
             r['unwind_refined'] = dict(extra_us)
         ob.unwind_refined = dict(extra_us)
